@@ -20,15 +20,24 @@ func init() { register("c14", checkC14) }
 // c14Program: h handles, d reads/writes, every handle closed inside the pipeline.
 // layout: tail (all closes at the end) | grouped (each handle: its requests, then its CLOSE) |
 // mixed (requests of all handles shuffled, each CLOSE right after the last request of its handle).
+//
+// cmds: two programs in three also carry handle requests that are neither reads nor writes between the READ/WRITEs
+// and the CLOSE of a handle — FSTAT, FSETSTAT (permissions; not on a read-only server, which refuses it) — and one
+// handle in five is a directory handle whose requests are READDIRs. They all go through the command worker, in front
+// of the CLOSE; none of them may close the object or cancel the context of its OPEN.
 func c14Program(rng *rand.Rand, server string, opt c14Opt, h, d int, layout string) gProg {
 	p := opt.prog(server)
+	cmds := rng.Intn(3) != 0
 	kinds := []string{"get", "put", "rw"}
 	if opt.ReadOnly {
 		kinds = []string{"get", "get", "get"} // a read-only server refuses every other open
 	}
-	files := map[string]string{"get": "f", "put": "g", "rw": "x"}
+	files := map[string]string{"get": "f", "put": "g", "rw": "x", "dir": "d"}
 	for i := 0; i < h; i++ {
 		k := kinds[rng.Intn(3)]
+		if cmds && rng.Intn(5) == 0 {
+			k = "dir"
+		}
 		p.Handles = append(p.Handles, gHandle{Name: fmt.Sprintf("h%d", i), Kind: k, Path: fmt.Sprintf("%s%d", files[k], i)})
 	}
 	// distribute the d requests over the handles (every handle gets at least one when d >= h)
@@ -44,6 +53,24 @@ func c14Program(rng *rand.Rand, server string, opt c14Opt, h, d int, layout stri
 	nr, nw := map[int]int{}, map[int]int{}
 	mk := func(hi int) gOp {
 		hd := p.Handles[hi]
+		if hd.Kind == "dir" {
+			if rng.Intn(4) == 0 {
+				return gOp{K: "fstat", H: hd.Name}
+			}
+			return gOp{K: "readdir", H: hd.Name}
+		}
+		if cmds {
+			switch r := rng.Intn(8); {
+			case r == 0:
+				return gOp{K: "fstat", H: hd.Name}
+			case r == 1 && !opt.ReadOnly:
+				af := uint32(wire.APerm)
+				if server == "rs" && rng.Intn(2) == 0 {
+					af = 0
+				}
+				return gOp{K: "fsetstat", H: hd.Name, AF: af}
+			}
+		}
 		read := hd.Kind == "get" || (hd.Kind == "rw" && rng.Intn(2) == 0)
 		lens := []uint32{1, 64, 1000, 4096}
 		ln := lens[rng.Intn(len(lens))]
@@ -153,6 +180,9 @@ func c14Check(run *gRun, input any) c14Verdict {
 	}
 	var fins []fin
 	for i := range p.Ops {
+		if keyOf(i) == "" { // answered by the server itself (a refusal)
+			continue
+		}
 		c, ok := byKey[keyOf(i)]
 		if !ok || c.Fin == 0 {
 			fail("close/call-missing/"+srv, fmt.Sprintf("request %d (%s) never completed its call %s", i, p.Ops[i].text(), keyOf(i)), nil, nil)
@@ -172,7 +202,7 @@ func c14Check(run *gRun, input any) c14Verdict {
 		inflight := 0
 		var late, running []string
 		for j := 0; j < ic; j++ {
-			if p.Ops[j].K == "close" {
+			if p.Ops[j].K == "close" || keyOf(j) == "" {
 				continue
 			}
 			G := byKey[keyOf(j)]
@@ -192,10 +222,34 @@ func c14Check(run *gRun, input any) c14Verdict {
 			v.inflight = inflight
 		}
 		if inflight > 0 {
-			fail("close/entered-with-calls-in-flight/"+srv, fmt.Sprintf("when Close of %s (request %d) was entered, %d reads/writes of earlier requests were still running", oc.H, ic, inflight), 0, running)
+			fail("close/entered-with-calls-in-flight/"+srv, fmt.Sprintf("when Close of the object of %s (CLOSE is request %d) was first entered, %d calls of earlier requests were still running", oc.H, ic, inflight), 0, running)
 		}
 		if len(late) > 0 {
-			fail("close/call-started-after-close/"+srv, fmt.Sprintf("reads/writes of requests that precede the CLOSE of %s (request %d) started after Close had been entered", oc.H, ic), "none", late)
+			fail("close/call-started-after-close/"+srv, fmt.Sprintf("calls of requests that precede the CLOSE of %s (request %d) started after Close of the object had been entered", oc.H, ic), "none", late)
+		}
+	}
+	// the object is closed by its CLOSE and by nothing else: between the set-up and the last reply of the pipeline it
+	// is entered once per CLOSE request of the stream, and no call on the object finds the context of its OPEN cancelled
+	wantCloses := map[string]int{}
+	for _, rt := range run.Routes {
+		if rt.CloseKey != "" {
+			wantCloses[rt.CloseKey]++
+		}
+	}
+	gotCloses := map[string]int{}
+	for _, c := range run.Calls[run.Setup:] {
+		if c.Free || c.Start > run.PipeEnd {
+			continue
+		}
+		if c.Op == "Close" {
+			gotCloses[c.Key]++
+			if gotCloses[c.Key] == wantCloses[c.Key]+1 {
+				fail("close/object-closed-by-another-request/"+srv, fmt.Sprintf("Close of the object was entered %d times while the pipeline ran; the stream holds %d CLOSE request(s) for it", gotCloses[c.Key], wantCloses[c.Key]), wantCloses[c.Key], c.Key)
+			}
+		}
+		if c.CtxDone {
+			fail("close/context-cancelled-before-close/"+srv, "the context of the OPEN request of a handle was already cancelled when "+c.Op+" ran on its object (it is cancelled when the handle is closed, after Close of the object)", "not cancelled", c.Key+" ("+c.Op+")")
+			break
 		}
 	}
 	// every request of the stream succeeds
@@ -206,8 +260,15 @@ func c14Check(run *gRun, input any) c14Verdict {
 		switch o.K {
 		case "read":
 			ok = f.Typ == wire.Data
+		case "fstat":
+			ok = f.Typ == wire.Attrs
+		case "readdir": // names, or the end of the listing
+			ok = f.Typ == wire.Name || (f.Typ == wire.Status && gParseStatus(f).Code == wire.EOF)
 		default:
 			ok = f.Typ == wire.Status && gParseStatus(f).Code == wire.OK
+		}
+		if run.Routes[i].Denied { // refused by a read-only server (checked by the shared oracles)
+			ok = true
 		}
 		if !ok {
 			if nfailed++; nfailed <= 5 {
@@ -216,7 +277,7 @@ func c14Check(run *gRun, input any) c14Verdict {
 		}
 	}
 	for _, h := range p.Handles {
-		if h.Kind == "get" {
+		if h.Kind == "get" || h.Kind == "dir" {
 			continue
 		}
 		want := gExpectedFinal(run, h)
@@ -331,6 +392,9 @@ func c14Summarise(job c14Job, modelOK bool) gSummary {
 			hist(fmt.Sprintf("deep/calls-held-before-each-close=%d", job.Gen.Held))
 		}
 		hist(fmt.Sprintf("deep/closes=%d", len(job.Gen.Segs)))
+		if job.Gen.Cmd > 0 {
+			hist(fmt.Sprintf("deep/fstat-or-fsetstat-behind-every-nth-read-write=%02d", job.Gen.Cmd))
+		}
 		hist("deep/server=" + p.Server)
 	} else {
 		s.Text = p.text() + fmt.Sprint(cs.Order, cs.Mode, cs.Seed)
@@ -393,10 +457,10 @@ func c14Short(ix []int) any {
 
 func checkC14(c *lib.Ctx) {
 	r := c.R
-	r.Rule = "Small pipelines: d = 1…24 READ/WRITE requests on h = 1…4 handles (read-only, write-only and read-write opens; layouts: all CLOSEs at the end, handle by handle, shuffled; one read in twelve longer than 32768 bytes) followed by the CLOSEs without waiting for any reply, on both servers. Gated cases: every ReadAt/WriteAt is held; after the expected calls have started and a grace period of 25 ms (again after every completed CLOSE while calls are held) the harness asserts that no Close was entered that the pipeline cannot have reached, then lets the calls return in a chosen order (all feasible orders for d <= 4 (quick) / 6 (thorough), PRNG orders: uniform, fifo, lifo, earliest-held-longest). Unforced cases: nothing is held, every call (Close too) sleeps a PRNG time below 1.5 ms, or not at all. " +
-		"Deep pipelines (generated, not written out): n READ/WRITE requests of 1…8 bytes between two CLOSEs for n = 0…20 and 2^k-1, 2^k, 2^k+1 (k = 5…10 quick, 5…16 thorough) and 767…769, 1535…1537, 3071…3073; one handle, or 2…4 handles closed one after the other with the boundary value as the count since the previous CLOSE or as the running total; gated: only the calls of the last 1…8 requests before each CLOSE are held (all earlier ones return on their own), grace period and chosen return order as above; unforced: sleep / free. " +
+	r.Rule = "Small pipelines: d = 1…24 READ/WRITE requests on h = 1…4 handles (read-only, write-only and read-write opens; layouts: all CLOSEs at the end, handle by handle, shuffled; one read in twelve longer than 32768 bytes) followed by the CLOSEs without waiting for any reply, on both servers. Two programs in three also carry handle requests that are neither reads nor writes between the READ/WRITEs and the CLOSE of their handle: FSTAT, FSETSTAT (permissions; not on a read-only server) and, on directory handles (one handle in five), READDIR. Gated cases: every ReadAt/WriteAt (and every call of those other requests) is held; after the expected calls have started and a grace period of 25 ms (again after every completed CLOSE while calls are held) the harness asserts that no Close was entered that the pipeline cannot have reached, then lets the calls return in a chosen order (all feasible orders for d <= 4 (quick) / 6 (thorough), PRNG orders: uniform, fifo, lifo, earliest-held-longest). Unforced cases: nothing is held, every call (Close too) sleeps a PRNG time below 1.5 ms, or not at all. " +
+		"Deep pipelines (generated, not written out): n READ/WRITE requests of 1…8 bytes between two CLOSEs for n = 0…20 and 2^k-1, 2^k, 2^k+1 (k = 5…10 quick, 5…16 thorough) and 767…769, 1535…1537, 3071…3073; one handle, or 2…4 handles closed one after the other with the boundary value as the count since the previous CLOSE or as the running total; gated: only the calls of the last 1…8 requests before each CLOSE are held (all earlier ones return on their own), grace period and chosen return order as above; unforced: sleep / free. Deep pipelines with an FSTAT / FSETSTAT behind every 1st, 2nd, 3rd, 5th or 17th READ/WRITE (10 quick / 150 thorough per server). " +
 		"Server options: every case runs on a server started with one of the 24 (os-backed: ReadOnly x WithAllocator x WithMaxTxPacket absent/32768/65536 x WithServerWorkingDirectory, handles then opened by relative names) resp. 12 (request server: WithRSAllocator x WithRSMaxTxPacket x WithStartDirectory) option combinations, dealt from a shuffled deck per family so that every family of cases meets every combination (read-only servers: read-only opens only); the depths 256 and 512 (thorough: 255, 256, 257, 512 and 65536) are run gated under every combination. Schedules of pipelines of up to 300 requests are also replayed in the Lean pipeline model. " +
-		"Oracles on the global start/finish log: no Close entered while calls of earlier requests are held, 0 earlier reads/writes in flight at every Close entry, none starts later, every request succeeds, final contents, the observed completion order is one the pipeline allows. non-trivial = at least one read/write precedes a CLOSE; distinct by (server, options, program or generator, order or sleep seed)"
+		"Oracles on the global start/finish log: no Close entered while calls of earlier requests are held, 0 earlier reads/writes in flight at every Close entry, none starts later, between the set-up and the last reply the Close of an object is entered exactly as often as the stream holds CLOSE requests for it (no other request closes it), no call on an object of the request server finds the context of its OPEN request cancelled (handler objects record Request.Context() at open time), every request succeeds, final contents, the observed completion order is one the pipeline allows. non-trivial = at least one read/write precedes a CLOSE; distinct by (server, options, program or generator, order or sleep seed)"
 	thorough := c.Tier == "thorough"
 	c02Cfg = gCurCfg(c, "pipe", c02Cfg)
 	modelOK := gProbeModel(c, "c14.check "+c02Cfg+" -")
@@ -568,6 +632,24 @@ func c14DeepJobs(rng *rand.Rand, thorough bool, grace int) []json.RawMessage {
 		for _, d := range all {
 			for _, opt := range c14Opts(server) {
 				gated(c14Gen{Server: server, Opt: opt, Kinds: c14Kinds(rng, opt, 1), Segs: []int{d}, Held: 1 + rng.Intn(8), Seed: rng.Int63()}, "deep-all-options")
+			}
+		}
+		// handle requests that are neither reads nor writes (FSTAT, FSETSTAT) between the reads/writes of a deep pipeline
+		deck = newC14Deck(rng)
+		nCmd := 10
+		if thorough {
+			nCmd = 150
+		}
+		for k := 0; k < nCmd; k++ {
+			opt := deck.next(server)
+			d := []int{7, 20, 33, 64, 255, 256, 257, 513}[rng.Intn(8)]
+			h := 1 + rng.Intn(3)
+			segs := c14Split(rng, d, h)
+			g := c14Gen{Server: server, Opt: opt, Kinds: c14Kinds(rng, opt, len(segs)), Segs: segs, Spread: rng.Intn(2) == 0, Held: 1 + rng.Intn(8), Seed: rng.Int63(), Cmd: []int{1, 2, 3, 5, 17}[rng.Intn(5)]}
+			if k%3 == 2 {
+				unforced(g, []string{"sleep", "free"}[rng.Intn(2)])
+			} else {
+				gated(g, "deep-handle-commands")
 			}
 		}
 		// nothing held
